@@ -16,7 +16,9 @@ import (
 	"time"
 	"unsafe"
 
+	"github.com/go-shiori/dom"
 	distiller "github.com/markusmobius/go-domdistiller"
+	"golang.org/x/net/html"
 	"verifsim.local/simrt"
 
 	"verifsim/plan"
@@ -91,7 +93,7 @@ func (w *world) setup() error {
 				if _, ok := w.trees[op.Tree]; !ok {
 					return fmt.Errorf("task %d op %d: unknown tree %q", ti, oi, op.Tree)
 				}
-			case "Reader", "URL", "File":
+			case "Reader", "URL", "File", "ParseApply":
 				if _, ok := w.docs[op.Doc]; !ok {
 					return fmt.Errorf("task %d op %d: unknown doc %q", ti, oi, op.Doc)
 				}
@@ -196,6 +198,14 @@ func (w *world) runOp(t *task, i int) {
 		switch op.Op {
 		case "Apply":
 			res, err = distiller.Apply(w.trees[op.Tree].root, opts)
+		case "ParseApply":
+			// the specification of the stream entry points: Apply on the
+			// tree parsed from the same bytes
+			var doc *html.Node
+			doc, err = dom.Parse(bytes.NewReader(w.docs[op.Doc]))
+			if err == nil {
+				res, err = distiller.Apply(doc, opts)
+			}
 		case "Reader":
 			res, err = distiller.ApplyForReader(newSimReader(k, oo, "reader", w.docs[op.Doc], op.Reader), opts)
 		case "File":
@@ -311,7 +321,14 @@ func TestWorker(t *testing.T) {
 	w.k = k
 
 	run := func() {
+		// hooks first: the harness's own dom.Parse calls during set-up must
+		// see the canonical goroutine order of the charset detector too
+		setupHooks := k.hooks()
+		setupHooks.Yield = func(int) {}
+		setupHooks.Go = k.goChain
+		simrt.H = setupHooks
 		if err := w.setup(); err != nil {
+			simrt.H = nil
 			out.Harness = "setup: " + err.Error()
 			return
 		}
